@@ -602,7 +602,11 @@ def r2_10(ctx, rc):
     bsites = [x for x in sgb.nodes if Q.is_call(x, bq) and x.call.args and
               _own_filename(ctx.H.subst(x.call.args[0], x.func, x.cn))]
     if not bsites:
-        raise AnalysisError('backup of the target not found')
+        rc.violation('backup-guard | ' + bf.qualname,
+                     'the target is never moved aside before it is rebuilt '
+                     '(an existing file that the build overwrites cannot be '
+                     'restored by rollback)', bf.file, key='backup guard')
+        return
     bfacts = None
     for path, facts in Q.enumerate_paths(
             sgb, sgb.entry, lambda x: x.id == bsites[0].id):
